@@ -102,7 +102,13 @@ theorem evInbound_keep {w : World} (hI : WInv w) {p : World × Option Err} (hE :
     Keep w p.1 := by
   unfold evInbound at hE
   split at hE
-  · cases hE; exact addConn_keep hI _ _
+  · split at hE
+    · cases hE; exact addConn_keep hI _ _
+    · cases hE
+      intro j c hc
+      have hj : j ≠ w.n := by
+        intro e; subst e; rw [hI.bound w.n (Nat.le_refl _)] at hc; cases hc
+      exact ⟨c, by simp [addOrphan, World.setConn, hj, hc], rfl, rfl, rfl⟩
   · cases hE
 
 theorem evConnected_keep {w : World} (hI : WInv w) {k : Nat} {p : World × Option Err}
@@ -132,9 +138,11 @@ theorem step_conn {w : World} (hI : WInv w) (e : Event) (j : Nat) (c : Conn) (hc
     | some p => exact fromKeep _ (evInbound_keep hI hE) rfl
   | connect =>
     simp only [step]
-    cases hE : evConnect w with
-    | none => exact fromKeep w (Keep.of_quiet (Quiet.refl w)) rfl
-    | some w' => exact fromKeep _ (Keep.of_quiet (evConnect_quiet hE)) rfl
+    split
+    · cases hE : evConnect w with
+      | none => exact fromKeep w (Keep.of_quiet (Quiet.refl w)) rfl
+      | some w' => exact fromKeep _ (Keep.of_quiet (evConnect_quiet hE)) rfl
+    · exact fromKeep w (Keep.of_quiet (Quiet.refl w)) rfl
   | connected k =>
     simp only [step]
     cases hE : evConnected w k with
@@ -147,6 +155,7 @@ theorem step_conn {w : World} (hI : WInv w) (e : Event) (j : Nat) (c : Conn) (hc
     | some w' => exact fromKeep _ (Keep.of_quiet (evConnFail_quiet hE)) rfl
   | lost i => exact fromKeep _ (Keep.of_quiet (evLost_quiet w i)) rfl
   | advance dt => exact fromKeep _ (Keep.of_quiet (evAdvance_quiet w dt)) rfl
+  | setKey => exact fromKeep _ (Keep.of_quiet (Quiet.of_eq rfl rfl rfl rfl)) rfl
   | data i d =>
     simp only [step, evData]
     cases hci : w.conns i with
@@ -345,9 +354,15 @@ theorem evInbound_new {w : World} (hI : WInv w) {p : World × Option Err} (hE : 
   refine ⟨WInv_evInbound hI hE, evInbound_keep hI hE, ?_⟩
   unfold evInbound at hE
   split at hE
-  · cases hE
-    obtain ⟨c', h1, h2, h3, _⟩ := addConn_new hI none none
-    exact ⟨c', h1, h2, by rw [h3]; rfl⟩
+  · split at hE
+    · cases hE
+      obtain ⟨c', h1, h2, h3, _⟩ := addConn_new hI none none
+      exact ⟨c', h1, h2, by rw [h3]; rfl⟩
+    · cases hE
+      refine ⟨{ newConn none none (w.now + Gen.Transit.TIMEOUT_s, w.seq) with
+          state := .hungUp, timer := none, err := some .assertion, lost := 1, negD := .fail .assertion }, ?_, rfl, rfl⟩
+      simp [addOrphan, World.setConn]
+      decide
   · cases hE
 
 theorem evConnected_new {w : World} (hI : WInv w) {k : Nat} {p : World × Option Err}
@@ -406,6 +421,7 @@ theorem LInv_dstep {d : Duo} (h : LInv d) (ev : DEvent) : LInv (dstep d ev) := b
     | connFail k => exact nilS _ (fun _ _ => rfl)
     | lost i => exact nilS _ (fun _ _ => rfl)
     | advance dt => exact nilS _ (fun _ _ => rfl)
+    | setKey => exact nilS _ (fun _ _ => rfl)
   | r e =>
     cases e with
     | data i b =>
@@ -425,6 +441,7 @@ theorem LInv_dstep {d : Duo} (h : LInv d) (ev : DEvent) : LInv (dstep d ev) := b
     | connFail k => exact nilR _ (fun _ _ => rfl)
     | lost i => exact nilR _ (fun _ _ => rfl)
     | advance dt => exact nilR _ (fun _ _ => rfl)
+    | setKey => exact nilR _ (fun _ _ => rfl)
   | link how =>
     cases how with
     | sListens k =>
@@ -562,6 +579,7 @@ theorem dstep_sides (d : Duo) (ev : DEvent) :
     | connFail k => exact ⟨⟨[.connFail k], rfl⟩, ⟨[], rfl⟩⟩
     | lost i => exact ⟨⟨[.lost i], rfl⟩, ⟨[], rfl⟩⟩
     | advance dt => exact ⟨⟨[.advance dt], rfl⟩, ⟨[], rfl⟩⟩
+    | setKey => exact ⟨⟨[.setKey], rfl⟩, ⟨[], rfl⟩⟩
   | r e =>
     cases e with
     | data i b =>
@@ -575,6 +593,7 @@ theorem dstep_sides (d : Duo) (ev : DEvent) :
     | connFail k => exact ⟨⟨[], rfl⟩, ⟨[.connFail k], rfl⟩⟩
     | lost i => exact ⟨⟨[], rfl⟩, ⟨[.lost i], rfl⟩⟩
     | advance dt => exact ⟨⟨[], rfl⟩, ⟨[.advance dt], rfl⟩⟩
+    | setKey => exact ⟨⟨[], rfl⟩, ⟨[.setKey], rfl⟩⟩
   | link how =>
     cases how with
     | sListens k =>
